@@ -343,3 +343,25 @@ with of_rargs (a : rargs) : fargs :=
   end.
 
 End Full.
+
+(* tokens as the tokenizer writes them: punctuation with its own spelling; no EOF token inside the list *)
+Definition full_tok (t : tk) : bool :=
+  match ktyp t with
+  | tEof => false
+  | tOpen => str_eqb (kimg t) [40]
+  | tClose => str_eqb (kimg t) [41]
+  | tOpenBracket => str_eqb (kimg t) [91]
+  | tCloseBracket => str_eqb (kimg t) [93]
+  | tOpenCurly => str_eqb (kimg t) [123]
+  | tCloseCurly => str_eqb (kimg t) [125]
+  | tDot => str_eqb (kimg t) [46]
+  | tComma => str_eqb (kimg t) [44]
+  | tColon => str_eqb (kimg t) [58]
+  | tSemicolon => str_eqb (kimg t) [59]
+  | _ => true
+  end.
+Definition full_toks (ts : list tk) : bool := forallb full_tok ts.
+
+(* the specification relation of the full grammar: ts is a rendering of the annotated AST e under the chain ids *)
+Definition frenders (cfg : pcfg) (ids : idents) (e : ast) (ts : list tk) : Prop :=
+  exists r u, fwf cfg r = true /\ ferase cfg ids r = Some (e, u) /\ fflatten cfg r = ts.
